@@ -1,67 +1,32 @@
-(* eval_sdiv: the full soundness statement is FALSE for the current code (constants are not
-   normalised to signed form: `d = divisor.as_constant()` is "already signed" only if the range was
-   built from a literal); refuted below, and proved under the signed-form hypothesis. *)
 From Coq Require Import ZArith Bool List String Lia.
 From Verif Require Import Base.Word256 Base.PyInt Base.WordLemmas C14.RangeBase C14.GenRange C14.RangeSound C14.RangeLemmas2.
 Import ListNotations.
 Open Scope Z_scope.
 Ltac Zify.zify_post_hook ::= Z.to_euclidean_division_equations.
 
-Theorem eval_sdiv_refuted : exists A B a b, wf A /\ wf B /\ mem a A /\ mem b B /\
-  exists R, eval_sdiv A B = Ok R /\ ~ mem (w_sdiv a b) R.
+Theorem eval_sdiv_sound : sound2 eval_sdiv w_sdiv.
 Proof.
-  exists (IV 10 10), (IV (W - 1) (W - 1)), 10, (W - 1).
-  split; [cbn; wl|]. split; [cbn; wl|].
-  split; [exists 10; split; [lia | reflexivity]|].
-  split; [exists (W - 1); split; [lia | reflexivity]|].
-  exists (IV 0 0). split; [vm_compute; reflexivity|].
-  intros [v [Hv Hm]]. assert (v = 0) by lia. subst v. vm_compute in Hm. discriminate.
-Qed.
-
-
-(* same defect on the non-constant-dividend path: divisor {2^256-1} (the word -1) is taken as positive *)
-Theorem eval_sdiv_refuted_range : exists A B a b, wf A /\ wf B /\ mem a A /\ mem b B /\
-  exists R, eval_sdiv A B = Ok R /\ ~ mem (w_sdiv a b) R.
-Proof.
-  exists (IV (-10) 10), (IV (W - 1) (W - 1)), 10, (W - 1).
-  split; [cbn; wl|]. split; [cbn; wl|].
-  split; [exists 10; split; [lia | reflexivity]|].
-  split; [exists (W - 1); split; [lia | reflexivity]|].
-  exists (IV 0 0). split; [vm_compute; reflexivity|].
-  intros [v [Hv Hm]]. assert (v = 0) by lia. subst v. vm_compute in Hm. discriminate.
-Qed.
-
-Corollary eval_sdiv_not_sound : ~ sound2 eval_sdiv w_sdiv.
-Proof.
-  intros S. destruct eval_sdiv_refuted as (A & B & a & b & WA & WB & MA & MB & R & E & N).
-  specialize (S A B a b WA WB MA MB). rewrite E in S. tauto.
-Qed.
-
-Theorem eval_sdiv_sound_partial : forall A B a b, wf A -> wf B -> sform B ->
-  (vr_is_constant A = true -> sform A) -> mem a A -> mem b B ->
-  match eval_sdiv A B with Ok R => mem (w_sdiv a b) R /\ wf R | Err _ => False end.
-Proof.
-  intros A B a b WA WB SB SA MA MB; unfold eval_sdiv.
-  destruct A as [| |l1 h1], B as [| |l2 h2]; cbn [mem wf sform] in *; try contradiction;
-  open_range; rewrite ?wrap256_unsigned; consts; exec; getreps; subst; unfold w_sdiv, of_signed; fixreps.
-  all: try (specialize (SA eq_refl)).
-  1-2: wordwit.
-  1: split; [exists (- HALF); split; [lia | vm_compute; reflexivity] | wl].
-  all: rewrite ?(to_signed_mod' h2) by lia.
-  all: assert (E9: h2 mod W =? 0 = false) by (apply Z.eqb_neq; mlia); rewrite ?E9; clear E9.
-  1-4: rewrite (to_signed_mod' h1) by lia;
+  intros A B a b WA WB MA MB; unfold eval_sdiv; go2 A B; unfold w_sdiv, of_signed; fixreps.
+  (* normalise the guard  b =? 0  and abstract the signed divisor / constant dividend *)
+  all: pose proof (to_signed_eq0 h2) as Z0; pose proof (to_signed_range h2) as RD.
+  all: try (pose proof (to_signed_range h1) as RS).
+  all: set (d := to_signed (h2 mod W)) in *.
+  1-2: assert (E9: h2 mod W =? 0 = true) by (apply Z.eqb_eq; tauto); rewrite E9; sw 0.
+  all: try (assert (E9: h2 mod W =? 0 = false) by (apply Z.eqb_neq; tauto); rewrite E9; clear E9 Z0).
+  1: rewrite H, H0; split; [exists (- HALF); split; [lia | vm_compute; reflexivity] | wl].
+  1-4: set (s := to_signed (h1 mod W)) in *;
        match goal with |- context [?c * (Z.abs ?x / Z.abs ?y)] =>
          replace (c * (Z.abs x / Z.abs y)) with (x ÷ y)
-           by (rewrite <- (sdiv_const_eq h1 h2) by lia; rewrite E3; reflexivity) end;
-       pose proof (quot_abs_le h1 h2 ltac:(assumption));
-       (split; [exists (h1 ÷ h2); split; [lia | reflexivity] | wl]).
+           by (rewrite <- (sdiv_const_eq x y) by lia; rewrite E3; reflexivity) end;
+       pose proof (quot_abs_le s d ltac:(assumption));
+       (split; [exists (s ÷ d); split; [lia | reflexivity] | wl]).
   all: rewrite ?(to_signed_mod' v1) by lia.
-  all: rewrite ?(quot_pos_div l1 h2), ?(quot_pos_div h1 h2), ?(quot_neg_div l1 h2), ?(quot_neg_div h1 h2) in * by lia.
-  all: pose proof (Z.quot_le_mono l1 v1 h2 ltac:(lia) ltac:(lia));
-       pose proof (Z.quot_le_mono v1 h1 h2 ltac:(lia) ltac:(lia));
-       pose proof (quot_abs_le l1 h2 ltac:(lia)); pose proof (quot_abs_le h1 h2 ltac:(lia)).
+  all: rewrite ?(quot_pos_div l1 d), ?(quot_pos_div h1 d), ?(quot_neg_div l1 d), ?(quot_neg_div h1 d) in * by lia.
+  all: pose proof (Z.quot_le_mono l1 v1 d ltac:(lia) ltac:(lia));
+       pose proof (Z.quot_le_mono v1 h1 d ltac:(lia) ltac:(lia));
+       pose proof (quot_abs_le l1 d ltac:(lia)); pose proof (quot_abs_le h1 d ltac:(lia)).
   all: lazymatch goal with
        | |- False /\ True => exfalso; lia
-       | _ => split; [exists (v1 ÷ h2); split; [lia | reflexivity] | wl]
+       | _ => split; [exists (v1 ÷ d); split; [lia | reflexivity] | wl]
        end.
 Qed.
